@@ -139,4 +139,16 @@ theorem transformed_eq (t : Aff) : Tr.transformed t = .ok (transformed t) := by
       · exact transformed_eq_nn_n0 t h0 ha hd he hf
       · exact transformed_eq_nn_nn t h0 ha hd he hf
 
+/-- the `gettransform` methods of the transform paints, as translated from the current paint.py, are the COLR meaning of
+the encodings (`Enc.gettransform`): the inverse direction of `transformed` that traversal, clip boxes, COLRv0/glyf
+components, OT-SVG and colr_to_svg rely on -/
+theorem gettransform_eq :
+    (∀ t, Tr.gt_transform t = .ok (Enc.transform t).gettransform) ∧
+    (∀ dx dy, Tr.gt_translate dx dy = .ok (Enc.translate dx dy).gettransform) ∧
+    (∀ sx sy, Tr.gt_scale sx sy = .ok (Enc.scale sx sy).gettransform) ∧
+    (∀ sx sy cx cy, Tr.gt_scale_around_center sx sy cx cy = .ok (Enc.scaleAroundCenter sx sy cx cy).gettransform) ∧
+    (∀ s, Tr.gt_scale_uniform s = .ok (Enc.scaleUniform s).gettransform) ∧
+    (∀ s cx cy, Tr.gt_scale_uniform_around_center s cx cy = .ok (Enc.scaleUniformAroundCenter s cx cy).gettransform) :=
+  ⟨fun _ => rfl, fun _ _ => rfl, fun _ _ => rfl, fun _ _ _ _ => rfl, fun _ => rfl, fun _ _ _ => rfl⟩
+
 end NanoVerif.TrProofs
